@@ -194,10 +194,12 @@ def check_case(ctx, case):
         sub = os.path.join(d, 'v%d' % vi)
         os.makedirs(sub)
         name = 'a'
-        for li, docs in enumerate(layers):
+        vlayers = layers + [[{'alias': {'n': 8, 'only_here': 1}}]] if var == 'anchor' else layers
+        va = a + ('json',) if var == 'anchor' else a
+        for li, docs in enumerate(vlayers):
             if li:
                 name += '.l%d' % li
-            f = a[li]
+            f = va[li]
             if var == 'anchor' and li == 0:
                 parts = []
                 for dd in docs:
@@ -208,7 +210,7 @@ def check_case(ctx, case):
                 text = ser.write(f, docs, rng)
             with open(os.path.join(sub, '%s.%s' % (name, f)), 'w') as fh:
                 fh.write(text)
-        top = os.path.join(sub, '%s.%s' % (name, a[-1]))
+        top = os.path.join(sub, '%s.%s' % (name, va[-1]))
         for o in ({'op': 'merge_layers', 'path': top}, {'op': 'output_docs'}, {'op': 'output', 'format': 'json'}, {'op': 'output', 'format': 'yaml'}, {'op': 'output', 'format': 'toml'}):
             o = dict(o, parser=vi)
             ops.append(o)
@@ -231,6 +233,7 @@ def check_case(ctx, case):
         if var == 'anchor' and exp is not None:
             l2 = clone(layers)
             l2[0] = [yaml_anchor_variant(dd)[1] for dd in l2[0]]
+            l2.append([{'alias': {'n': 8, 'only_here': 1}}])       # an upper layer edits under one alias site only
             this_exp, _, _ = expected(l2)
             if this_exp == 'skip':
                 continue
